@@ -167,11 +167,13 @@ def L1x(tier, scheds=('fwd', 'bwd'), balances=(True, False)):
             continue
         lv = [i for i in range(4) if is_leaf(par, i)]
         for est in (4, 12):
-            attrs = {i: {'estimate': est, 'resource': 'A'} for i in lv}
-            for sched in scheds:
-                for bal in balances:
-                    anchor = MON if sched == 'fwd' else MON + 21 * DAY
-                    yield Scenario(sched, bal, anchor, mk_tasks(par, attrs), list(links), layer='L1x')
+            for rpat in ('A', 'each'):
+                # 'each': every leaf on its own resource, so that capacity packing cannot hide a wrong bound
+                attrs = {i: {'estimate': est, 'resource': 'A' if rpat == 'A' else 'R%d' % i} for i in lv}
+                for sched in scheds:
+                    for bal in balances:
+                        anchor = MON if sched == 'fwd' else MON + 21 * DAY
+                        yield Scenario(sched, bal, anchor, mk_tasks(par, attrs), list(links), layer='L1x')
 
 
 def attr_menu(S, sched):
@@ -283,6 +285,21 @@ def L3(tier, scheds=('fwd', 'bwd'), balances=(True, False), cals=None, ests=None
                             for bal in balances:
                                 yield Scenario(sched, bal, S, mk_tasks((None,) * k, attrs), list(pat),
                                                cals={'A': cal}, layer='L7' if decimal else 'L3')
+
+
+def L3long(tier, scheds=('fwd', 'bwd'), balances=(True, False)):
+    """Tasks that run for more than a week on calendars that are not weekly-periodic."""
+    cals = ['none', 'holidays2', 'drop', 'sparse', 'direct'] if tier == 'thorough' else ['holidays2', 'drop', 'sparse']
+    for k in (1, 2):
+        for pat in L3_PATTERNS[k] if k == 2 else [()]:
+            for est in itertools.product((60, 44, 20), repeat=k):
+                attrs = {i: {'estimate': est[i], 'resource': 'A'} for i in range(k)}
+                for cal in cals:
+                    for S0 in (MON, MON + 2 * DAY):
+                        for sched in scheds:
+                            S = S0 if sched == 'fwd' else S0 + 21 * DAY
+                            for bal in balances:
+                                yield Scenario(sched, bal, S, mk_tasks((None,) * k, attrs), list(pat), cals={'A': cal}, layer='L3long')
 
 
 def L4_inputs(tier, scheds=('fwd', 'bwd')):
